@@ -31,6 +31,39 @@ claim("C05", "tagged exceptions: delivered at most once, a completing wait()/try
 claim("C16", "per-functor counters, last functor on the calling thread before return, all finished after wait(), recursive shapes")
 claim("C21", "no waiter returns before the last decrement/notify was invoked; all waiters return (deadlock detector of the simulated futex)")
 claim("C47", "a force-queued functor never starts on the submitting thread while its own schedule call is in progress (ThreadPool, TaskSet, ConcurrentTaskSet; single and bulk)")
+claim("C03", "exactly-once counters and wait()/resize() termination while an admin thread resizes (grow, shrink, 0) against direct, TaskSet (ring fast path), ConcurrentTaskSet and parallel_for producers")
+claim("C06", "termination (deadlock detector + fair-tail step budget) of random acyclic nesting programs: task sets in tasks, Future::get in tasks, blocking parallel_for in tasks, pools of 0..4 threads")
+claim("C07", "one submission into a fully parked pool, producer then blocks without helping: every body must start without any worker wait timeout expiring while nothing else can run (idle-jump oracle), over wake-choice/stall schedules")
+claim("C08", "ThreadPool::verifWorkRemaining()==0 at quiescent points (all tasks finished, every worker parked) after histories of direct, task-set, ring, placed submissions and resizes", "Uses hook H2.")
+claim("C09", "~ThreadPool / resize / setSignalingWake at an arbitrary point of the workers' loops return without an idle worker-timeout expiry in wake mode, and leave exactly the expected number of live worker threads")
+claim("C12", "recorded [b,e) invocations tile [start,end) exactly for 8 integer types, ranges touching the type limits, static/adaptive/explicit chunking, all option combinations, nesting; nothing still running at return")
+claim("C13", "at most one invocation size is not a multiple of the granularity and it ends at the range end, for every start residue, static and adaptive, wait true/false")
+claim("C14", "per-state in-use counters never exceed one; container non-empty afterwards (non-empty ranges), vector/deque/list, reuseExistingState both ways")
+claim("C15", "per-element application counters for random-access/bidirectional/forward iterators, n incl. 0, maxThreads incl. 0/1, wait modes, zero-thread pools; untouched elements beyond n")
+claim("C16", "per-functor counters, last functor on the calling thread before return, all finished after wait(), recursive divide-and-conquer shapes")
+claim("C18", "functor runs once; every get() returns the same intact object or rethrows; wait family never reports early; copies destroyed/reassigned concurrently; all five schedulables and four policy combinations")
+claim("C19", "continuations run once and only with a ready antecedent whatever the registration phase; when_all/when_any readiness, order and index; task-set variants ready after wait()")
+claim("C20", "timed waits: 'ready' only when complete, 'timeout' only when the simulated clock passed the deadline (relative and absolute, steady and system clock), non-deferred functors never run on the waiter")
+claim("C22", "occupancy counters inside critical sections for lock/try_lock/lock_shared/try_lock_shared/upgrade/downgrade (single-writer plans for upgrade), progress via deadlock detector, idle lock admits both kinds")
+claim("C23", "occupancy counters across all slots for explicit slot maps and the public class, N in {1,2,4,16}; after quiescence every slot admits a reader and a writer")
+claim("C24", "history invariants: every delivered tag was emplaced and is delivered at most once; the k-th successful emplace needs k requests and k-1 fetches invoked", "At atomic-operation granularity the moved-from OpResult hides the two-consumer race (DESIGN.md §11); the claim is for that granularity.")
+claim("C25", "per-resource holder counters, held<=size, move-assignment recycles, construction/destruction balance, blocked acquirers proceed (deadlock detector)")
+claim("C26", "invocation count <= timesToRun, none after a false return, none starting after cancel() returned (check-then-act rule), none in progress or starting after a non-detached destructor returned, first run not before its scheduled time")
+claim("C27", "per-(item,stage) counters, predecessor-output chain, filtering, all invocations finished at return, payload live counter zero")
+claim("C28", "per-stage concurrent-invocation gauge never exceeds the stage limit (plain-function stages serial), generator instances within its limit")
+claim("C29", "after a stage throws: pipeline() terminates and rethrows the thrown tag, no (item,stage) twice, generator stops, payload live counter zero, pool usable afterwards")
+claim("C30", "random DAGs with subgraphs, BiProp edges, clear/rebuild: each incomplete node once, after its incomplete predecessors, complete afterwards, complete nodes not run; three executors")
+claim("C31", "after setIncomplete + ForwardPropagator the run set equals the reference closure (forward closure plus bidirectional groups = connected components of biProp edges that meet it), in dependency order")
+claim("C33", "index ranges returned by concurrent growth are disjoint and dense, values intact at their index, earlier references stay valid, size equals total growth, element lifetimes balanced; three realloc strategies")
+claim("C34", "exactly-once delivery, real-time FIFO bad-pattern check, per-producer order, held lower bound <= capacity, exact sequential behaviour when quiescent, lifetimes balanced; capacities 2,3,4,16")
+claim("C35", "strict FIFO with one producer and one consumer (single and batch), push refused only when full / pop only when empty as observed by that thread, quiescent exactness, lifetimes")
+claim("C36", "every pushed element returned by exactly one pop or steal, owner pop returns the newest remaining, capacity bound, quiescent exactness; 1..3 thieves")
+claim("C37", "concurrent grow_by ranges disjoint and dense, elements default constructed, references stable; copy/move/assign/swap equal at growing buffer counts")
+claim("C41", "ownership map (no block live twice, aligned, no overlap, contents intact) across threads, cross-thread frees, thread exits; monitor on the backing-store spin lock word (no second holder, no foreign release)")
+claim("C42", "chunks lie in live slabs at chunk offsets and are never live twice; after clear() no allocFunc until slabs are exhausted; every slab released exactly once")
+claim("C45", "ids stable within a thread and unique over up to 64 concurrently created threads and several generations")
+claim("C46", "maximum number of harness bodies nested on one stack stays under a constant for chains of N and 4N: then-chains, recursive scheduling on overloaded pools, serial pipelines, graph chains")
+claim("C48", "concurrent-invocation gauge never exceeds max(maxThreads,1) for parallel_for (all chunkings, wait modes, granularity tails) and for_each")
 
 TECHNIQUE = "deterministic simulation with fault injection: seeded scheduler over real threads parked at every atomic/futex/mutex point, modelled futex+clock, seeded fault kinds, history oracles, replayable minimised traces"
 
